@@ -35,17 +35,17 @@ def array(src, name, n, what):
 
 
 def init_values(src, func, field, n, what):
-    m = re.search(r"\bvoid\s+%s\s*\([^)]*\)\s*\{(.*?)\n\}" % func, src, flags=re.S)
+    m = re.search(r"\b(?:void|int)\s+%s\s*\([^)]*\)\s*\{(.*?)\n\}" % func, src, flags=re.S)
     if not m:
         raise ValueError("%s not found in %s" % (func, what))
     body = m.group(1)
     out = []
     for i in range(n):
-        mm = re.findall(r"ctx->%s\[%d\]\s*=\s*(0[xX][0-9a-fA-F]+|\d+)\s*(?:ULL|UL|LL|U|L)?\s*;" % (field, i), body)
+        mm = re.findall(r"ctx->(?:u\.\w+\.)?%s\[%d\]\s*=\s*(0[xX][0-9a-fA-F]+|\d+)\s*(?:ULL|UL|LL|U|L)?\s*;" % (field, i), body)
         if len(mm) != 1:
             raise ValueError("%s: %s stores ctx->%s[%d] %d times" % (what, func, field, i, len(mm)))
         out.append(int(mm[0], 0))
-    if re.search(r"ctx->%s\[%d\]" % (field, n), body):
+    if re.search(r"ctx->(?:u\.\w+\.)?%s\[%d\]" % (field, n), body):
         raise ValueError("%s: %s stores more than %d words" % (what, func, n))
     return out
 
@@ -63,6 +63,7 @@ def defines(src, names, what):
 def parse(repo):
     rd = lambda f: strip_comments(open(os.path.join(repo, "src", f)).read())
     sm3, sse, s1, s256, s512 = rd("sm3.c"), rd("sm3_sse.c"), rd("sha1.c"), rd("sha256.c"), rd("sha512.c")
+    dg = rd("digest.c")
     t = {}
     t["sm3_K"] = array(sm3, "K", 64, "sm3.c")
     t["sm3_iv"] = init_values(sm3, "sm3_init", "digest", 8, "sm3.c")
@@ -76,6 +77,8 @@ def parse(repo):
     t["sha512_K"] = array(s512, "K", 80, "sha512.c")
     t["sha512_iv"] = init_values(s512, "sha512_init", "state", 8, "sha512.c")
     t["sha384_iv"] = init_values(s512, "sha384_init", "state", 8, "sha512.c")
+    t["sha512_224_iv"] = init_values(dg, "sha512_224_digest_init", "state", 8, "digest.c")
+    t["sha512_256_iv"] = init_values(dg, "sha512_256_digest_init", "state", 8, "digest.c")
     return t
 
 
@@ -98,7 +101,29 @@ def standard():
     rol = lambda x, n: ((x << n) | (x >> (32 - n))) & 0xffffffff if n else x
     smK = [rol(0x79cc4519 if j < 16 else 0x7a879d8a, j % 32) for j in range(64)]
     smIV = [0x7380166F, 0x4914B2B9, 0x172442D7, 0xDA8A0600, 0xA96F30BC, 0x163138AA, 0xE38DEE4D, 0xB0FB0E4E]
+    K512 = [frac(3, 64, p) for p in primes[:80]]
+    H512 = [frac(2, 64, p) for p in primes[:8]]
+    M = (1 << 64) - 1
+    ror = lambda x, n: ((x >> n) | (x << (64 - n))) & M
+
+    def comp(st, blk):
+        w = [int.from_bytes(blk[8 * i:8 * i + 8], "big") for i in range(16)]
+        for i in range(16, 80):
+            s0 = ror(w[i - 15], 1) ^ ror(w[i - 15], 8) ^ (w[i - 15] >> 7)
+            s1 = ror(w[i - 2], 19) ^ ror(w[i - 2], 61) ^ (w[i - 2] >> 6)
+            w.append((w[i - 16] + s0 + w[i - 7] + s1) & M)
+        a, b, c, d, e, f, g, h = st
+        for i in range(80):
+            t1 = (h + (ror(e, 14) ^ ror(e, 18) ^ ror(e, 41)) + ((e & f) ^ (~e & M & g)) + K512[i] + w[i]) & M
+            t2 = ((ror(a, 28) ^ ror(a, 34) ^ ror(a, 39)) + ((a & b) ^ (a & c) ^ (b & c))) & M
+            h, g, f, e, d, c, b, a = g, f, e, (d + t1) & M, c, b, a, (t1 + t2) & M
+        return [(x + y) & M for x, y in zip(st, [a, b, c, d, e, f, g, h])]
+
+    def ivgen(name):      # FIPS 180-4 5.3.6: SHA-512 from H512 xor a5..a5 over "SHA-512/t" (one block)
+        m = name + b"\x80" + bytes(111 - len(name)) + (8 * len(name)).to_bytes(16, "big")
+        return comp([x ^ 0xa5a5a5a5a5a5a5a5 for x in H512], m)
     return {
+        "sha512_224_iv": ivgen(b"SHA-512/224"), "sha512_256_iv": ivgen(b"SHA-512/256"),
         "sm3_K": smK, "sm3_iv": smIV, "sm3sse_K": smK, "sm3sse_iv": smIV,
         "sha1_K": [iroot(2, p << 60) for p in (2, 3, 5, 10)],
         "sha1_iv": [0x67452301, 0xEFCDAB89, 0x98BADCFE, 0x10325476, 0xC3D2E1F0],
@@ -115,7 +140,7 @@ def mismatches(repo="/repo"):
 
 
 ORDER = ["sm3_K", "sm3_iv", "sm3sse_K", "sm3sse_iv", "sha1_K", "sha1_iv", "sha256_K", "sha256_iv",
-         "sha224_iv", "sha512_K", "sha512_iv", "sha384_iv"]
+         "sha224_iv", "sha512_K", "sha512_iv", "sha384_iv", "sha512_224_iv", "sha512_256_iv"]
 
 
 def render(t):
